@@ -83,16 +83,29 @@ class Ledger:
     def __init__(self, loop) -> None:
         self.loop = loop
         self.req: list[tuple[float, int, str]] = []  # (t, seq, frame)
-        self.done: dict[int, tuple[float, str]] = {}  # seq -> (t, "ok" | exception name)
+        self.done: dict[int, tuple[float, str]] = {}  # seq -> (t, "ok" | exception name | "cancelled")
+        self.given_up: set[int] = set()  # requests the application itself withdrew while they were held back
+        self.task_seq: dict[Any, int] = {}
 
     async def offer(self, transport, frame: str) -> None:
         seq = len(self.req)
         self.req.append((self.loop.time(), seq, frame))
+        self.task_seq[asyncio.current_task()] = seq
         try:
             await transport.write_frame(frame)
             self.done[seq] = (self.loop.time(), "ok")
+        except asyncio.CancelledError:
+            if seq in self.given_up:  # (a request cancelled by the harness's own clean-up stays open)
+                self.done[seq] = (self.loop.time(), "cancelled")
+            raise
         except Exception as err:  # noqa: BLE001
             self.done[seq] = (self.loop.time(), type(err).__name__)
+
+    def give_up(self, task) -> None:  # type: ignore[no-untyped-def]
+        seq = self.task_seq.get(task)
+        if seq is not None and not task.done():
+            self.given_up.add(seq)
+            task.cancel()
 
 
 # ------------------------------------------------------------------ arrival patterns
@@ -138,6 +151,20 @@ async def pattern(loop, rng, name: str, led: Ledger, transport, uid: list[int], 
             fire(rng.choice((48, 1)))
             await asyncio.sleep(rng.choice((0.0, 0.001, 0.3)))
         await asyncio.sleep(budget)
+    elif name == "givers-up":
+        # callers that withdraw a request while the transport holds it back (write spacing, duty cycle, a sync
+        # cycle): what is offered afterwards must still go out
+        for _ in range(rng.choice((2, 4, 8))):
+            for _ in range(rng.choice((2, 5, 30))):
+                fire(rng.choice((1, 3, 48)))
+            await asyncio.sleep(rng.choice((0.0, 0.001, 0.01, 0.06, 0.3, 2.0)))
+            pending = [t for t in tasks if not t.done()]
+            for t in rng.sample(pending, k=min(len(pending), rng.choice((1, 1, 2, 5)))):
+                led.give_up(t)
+            await asyncio.sleep(rng.choice((0.0, 0.05, 1.0, 10.0)))
+            for _ in range(rng.choice((1, 3))):
+                fire(rng.choice((1, 3)))
+            await asyncio.sleep(min(budget / 8, 30.0))
     else:  # random mix
         while loop.time() < t_end:
             for _ in range(rng.choice((1, 1, 2, 7))):
@@ -150,7 +177,7 @@ async def pattern(loop, rng, name: str, led: Ledger, transport, uid: list[int], 
             t.cancel()
 
 
-PATTERNS = ("back-to-back", "burst", "steady-below", "steady-above", "idle-then-burst", "drain-then-mixed", "random-mix")
+PATTERNS = ("back-to-back", "burst", "steady-below", "steady-above", "idle-then-burst", "drain-then-mixed", "random-mix", "givers-up")
 
 
 # ------------------------------------------------------------------ serial
@@ -162,7 +189,11 @@ def judge_serial(ctx, name: str, led: Ledger, writes: list[tuple[float, bytes]])
     meta = {"pattern": name, "requests": len(led.req), "writes": n}
     # (3) exactly once, unaltered, in order
     want = [f for _, _, f in accepted]
+    withdrawn = {f for _, seq, f in led.req if seq in led.given_up}  # (may or may not have reached the port)
+    ours = [(t_, f) for t_, f in ours if f not in withdrawn]
+    n = len(ours)
     have = [f for _, f in ours]
+    ctx.count("serial.requests_withdrawn", len(withdrawn))
     open_ = [seq for _, seq, _ in led.req if seq not in led.done]
     if open_:
         ctx.violate("C11|serial|accepted-frame-never-written", "a write request was still pending hours after it was offered", {**meta, "open": len(open_), "first": led.req[open_[0]][2]})
